@@ -100,6 +100,32 @@ class LazyIter(Iter):
         return list(self.gen)
 
 
+class FromFn(Iter):
+    """std::iter::from_fn(f): every next() is a call of f"""
+    def __init__(self, mc, fnv):
+        self.mc, self.fnv, self.fused, self.done = mc, fnv, False, False
+        self.items, self.pos = [], 0
+
+    def next(self):
+        if self.fused and self.done:
+            return none()
+        r = self.mc.call_value(self.fnv, [])
+        if isinstance(r, Enum) and r.variant == 0:
+            self.done = True
+        if not isinstance(r, Enum):
+            raise Stuck("from_fn: the closure's answer is not known to be Some / None")
+        return r
+
+    def rest(self):
+        out = []
+        for _ in range(10000):
+            r = self.next()
+            if r.variant == 0:
+                return out
+            out.append(r.fields[0])
+        raise Stuck("an iterator made by from_fn is consumed without an end")
+
+
 def drain(it):
     """pull the items of an Iter one at a time"""
     while True:
@@ -432,8 +458,34 @@ class Machine:
         r = self._fmt_model(c, a, raw, tt, g, env)
         if r is not NOT:
             return r
+        if c.startswith("std::thread::LocalKey::") and c.rsplit("::", 1)[-1] in ("with", "try_with") and len(raw) == 2 and g is not None:
+            # a thread-local cell: one slot per key for the whole run (every interpreter instance of the run sees the same slot, as
+            # on one thread), initialised by running the key's own initialiser
+            key = mir.tls_key(g, tt)
+            if key is None:
+                raise Stuck("a thread-local whose key cannot be identified")
+            if not hasattr(self, "tls_slots"):
+                self.tls_slots, self.tls_env = {}, {}
+            if key not in self.tls_slots:
+                k0 = mir.norm(key)
+                inits = [h for h in self.fb.all(self.crate) if h.arg_count <= 1 and (h.name.startswith(k0 + "::") or mir.norm(h.name).startswith(k0 + "::"))
+                         and ("__init" in h.name or "init_fn" in h.name) and "{closure" not in h.name]
+                if len(inits) != 1:
+                    raise Stuck("no initialiser found for the thread-local %s" % key)
+                self.tls_slots[key] = len(self.tls_slots)
+                self.tls_env[self.tls_slots[key]] = self.run(inits[0], [none()] if inits[0].arg_count == 1 else [])
+            cell = absint.Ptr(self.tls_env, {"local": self.tls_slots[key], "proj": []})
+            r_ = self.call_value(a[1], [cell])
+            return ok(r_) if c.endswith("try_with") else r_
         if c in ("std::mem::take", "std::mem::replace", "std::mem::swap", "core::mem::take", "core::mem::replace", "core::mem::swap"):
             return self._mem_model(c.rsplit("::", 1)[-1], raw, a)
+        if c.endswith("String::split_off") and len(a) == 2:
+            tgt, cur = raw[0], a[0]
+            if isinstance(tgt, absint.Ptr) and isinstance(cur, str) and isinstance(a[1], int) and not isinstance(a[1], bool) and 0 <= a[1] <= len(cur.encode("utf-8")):
+                head_ = cur.encode("utf-8")[:a[1]].decode("utf-8", "strict")
+                tgt.set(head_)
+                return cur[len(head_):]
+            raise Stuck("String::split_off on a string / at an index that is not known")
         if c.endswith("String::pop"):
             tgt, cur = raw[0], a[0]
             if isinstance(tgt, absint.Ptr) and isinstance(cur, str):
@@ -793,6 +845,24 @@ class Machine:
                 return some(int(t_)) if lo_ <= t_ <= hi_ else none()
             if end in ("to_f32", "to_f64"):
                 return some(x)
+        if len(a) == 2 and end in ("lt", "le", "gt", "ge", "eq", "ne") and c.rsplit("::", 1)[0].endswith(("cmp::PartialOrd", "cmp::PartialEq")) \
+                and all(isinstance(x, (int, float)) and not isinstance(x, bool) for x in a) and any(isinstance(x, float) for x in a):
+            x_, y_ = a
+            return {"lt": x_ < y_, "le": x_ <= y_, "gt": x_ > y_, "ge": x_ >= y_, "eq": x_ == y_, "ne": x_ != y_}[end]
+        if not a and end in FLOAT_CONSTS and ("Float" in c or "Real" in c or "Bounded" in c or "Zero" in c or "One" in c or "f32" in c):
+            gens_ = [str(x) for x in (self.subst_generics(((tt or {}).get("fn") or {}).get("generics")) or []) if not str(x).startswith("'")]
+            if not (gens_ and gens_[0] in PRIM_INTS) and not (gens_ and gens_[0] == "f64"):
+                return FLOAT_CONSTS[end]        # binary32 (the crate's real type is instantiated with f32 only)
+        if len(a) == 2 and end in ("add", "sub", "mul", "div") and c.startswith("std::ops::") and tt is not None and \
+                ((tt.get("fn") or {}).get("resolved") is None or "f32" in c) and all(isinstance(x, (int, float)) and not isinstance(x, bool) for x in a) \
+                and all(isinstance(x, float) for x in a):
+            from .rustfloat import f32 as _f32
+            x_, y_ = a
+            try:
+                return _f32({"add": x_ + y_, "sub": x_ - y_, "mul": x_ * y_, "div": (x_ / y_) if y_ != 0 else (
+                    float("nan") if (x_ == 0 or x_ != x_) else __import__("math").copysign(float("inf"), x_) * __import__("math").copysign(1.0, y_))}[end])
+            except OverflowError:
+                return float("inf")
         if end == "from" and "NumCast" in c and len(a) == 1 and isinstance(a0, (int, float)) and not isinstance(a0, bool):
             gens_ = [str(x) for x in (self.subst_generics(((tt or {}).get("fn") or {}).get("generics")) or []) if not str(x).startswith("'")]
             dst_ = gens_[0] if gens_ else ""
@@ -848,6 +918,12 @@ class Machine:
             r = self._int_model(c, end, a)
             if r is not NOT:
                 return r
+        if end == "from_fn" and ("iter::sources::" in c or c.startswith("std::iter::from_fn")) and len(a) == 1 and isinstance(a0, (Closure, FnItem)):
+            # an iterator whose next() is the closure: asked again after a None it runs the closure again (it is not fused)
+            return FromFn(self, a0)
+        if end == "fuse" and "Iterator" in c and len(a) == 1 and isinstance(a0, FromFn):
+            a0.fused = True
+            return a0
         if end in ("repeat", "repeat_with") and ("iter::sources::" in c or c.startswith("std::iter::repeat")) and len(a) == 1:
             # an endless source: only ever consumed through a bounding adaptor (take / take_while / zip / map_while)
             def _forever(v=a0, with_=(end == "repeat_with")):
@@ -1266,6 +1342,17 @@ class Machine:
             return (len(a0) == 0) if isinstance(a0, (list, str)) else UNKNOWN
         if m("HashMap::is_empty", "HashSet::is_empty"):
             return (len(a0.d) == 0) if isinstance(a0, Map) else UNKNOWN
+        if m("<impl [T]>::get", "Vec::get") and isinstance(a0, list) and len(a) == 2 and isinstance(a[1], Enum) and \
+                getattr(a[1], "name", None) in ("Range", "RangeFrom", "RangeTo", "RangeFull", "RangeInclusive", "RangeToInclusive") and \
+                all(isinstance(x, int) and not isinstance(x, bool) for x in a[1].fields):
+            # a sub-slice: Some when the bounds are in order and inside the slice, None otherwise (what indexing would panic on)
+            fs_, n_ = a[1].fields, len(a0)
+            lo_, hi_ = {"Range": lambda: (fs_[0], fs_[1]), "RangeFrom": lambda: (fs_[0], n_), "RangeTo": lambda: (0, fs_[0]),
+                        "RangeFull": lambda: (0, n_), "RangeInclusive": lambda: (fs_[0], fs_[1] + 1),
+                        "RangeToInclusive": lambda: (0, fs_[0] + 1)}[a[1].name]()
+            if not (0 <= lo_ <= hi_ <= n_):
+                return none()
+            return some(list(a0[lo_:hi_]))
         if m("<impl [T]>::get", "<impl [T]>::get_mut", "Vec::get", "Vec::get_mut"):
             if isinstance(a0, list) and isinstance(a[1], int) and not isinstance(a[1], bool):
                 if not 0 <= a[1] < len(a0):
@@ -2098,6 +2185,9 @@ RESULT_METHODS = {"transpose", "map", "map_err", "and_then", "or_else", "ok", "e
 FLOAT_UNARY = ("floor", "ceil", "round", "trunc", "abs", "fract", "neg", "sqrt", "signum", "is_nan", "is_infinite", "is_finite",
                "is_sign_negative", "is_sign_positive", "to_i32", "to_i64", "to_u32", "to_usize", "to_i16", "to_u8", "to_u64", "to_isize",
                "to_f32", "to_f64")
+FLOAT_CONSTS = {"max_value": 3.4028234663852886e38, "min_value": -3.4028234663852886e38, "infinity": float("inf"), "neg_infinity": float("-inf"),
+                "nan": float("nan"), "zero": 0.0, "one": 1.0, "epsilon": 1.1920928955078125e-07, "min_positive_value": 1.1754943508222875e-38,
+                "neg_zero": -0.0}
 PRIM_INTS = {"i8": (-2 ** 7, 2 ** 7 - 1), "i16": (-2 ** 15, 2 ** 15 - 1), "i32": (-2 ** 31, 2 ** 31 - 1), "i64": (-2 ** 63, 2 ** 63 - 1),
              "isize": (-2 ** 63, 2 ** 63 - 1), "i128": (-2 ** 127, 2 ** 127 - 1), "u8": (0, 2 ** 8 - 1), "u16": (0, 2 ** 16 - 1), "u32": (0, 2 ** 32 - 1),
              "u64": (0, 2 ** 64 - 1), "usize": (0, 2 ** 64 - 1), "u128": (0, 2 ** 128 - 1)}
